@@ -39,6 +39,7 @@ type vPart struct {
 	Neg   bool   `json:"neg"`
 	IsVar bool   `json:"isvar"`
 	IsAbs bool   `json:"isabs,omitempty"` // times: an absolute time (as opposed to a duration)
+	AbsT  []int  `json:"abst,omitempty"`  // spec trees: year, month, day, hour, minute, second of an absolute time (local time zone)
 	Num   int64  `json:"num"`             // constant (numbers) or nanoseconds relative to the reference time (times)
 	VSub  string `json:"vsub"`            // variable: sub-query name
 	VName string `json:"vname"`           // variable: name
@@ -318,7 +319,7 @@ func (d *vDumper) or(c *queryOrCondition) (*vExpr, error) {
 
 // rank data elements: ids follow the order (sub, direction, regex, converter) so that the
 // model can sort by id where the code sorts by these strings.
-func (d *vDumper) rank(e *vExpr) {
+func (d *vDumper) rank(trees ...*vExpr) {
 	idx := make([]int, len(d.elems))
 	for i := range idx {
 		idx[i] = i
@@ -354,7 +355,47 @@ func (d *vDumper) rank(e *vExpr) {
 			walk(k)
 		}
 	}
-	walk(e)
+	for _, e := range trees {
+		if e != nil {
+			walk(e)
+		}
+	}
+}
+
+// The SPEC tree: what the generator meant by the text it wrote, parsed from the text by the checker's own
+// value parser (checks/c03.py), never by the code under test. The harness only completes it with what needs
+// the run-time context: ids of the payload elements and the distance of absolute times to the reference time.
+func (d *vDumper) completeSpec(e *vExpr) {
+	if e == nil {
+		return
+	}
+	for _, k := range e.Kids {
+		d.completeSpec(k)
+	}
+	a := e.Atom
+	if a == nil {
+		return
+	}
+	switch a.Kind {
+	case "time":
+		for _, rg := range a.Ranges {
+			for _, b := range rg {
+				for i := range b.Parts {
+					p := &b.Parts[i]
+					if p.IsAbs && len(p.AbsT) == 6 {
+						tt := time.Date(p.AbsT[0], time.Month(p.AbsT[1]), p.AbsT[2], p.AbsT[3], p.AbsT[4], p.AbsT[5], 0, d.loc)
+						p.Num = int64(tt.Sub(d.ref))
+					}
+				}
+			}
+		}
+	case "data":
+		flags := map[string][]uint8{"data": {0, 1}, "cdata": {0}, "sdata": {1}}[a.Key]
+		a.Elems = nil
+		for _, f := range flags {
+			a.Elems = append(a.Elems, d.elem(vElem{Sub: a.Sub, Flags: f, Regex: a.Regex, Conv: a.Conv}))
+		}
+	}
 }
 
 // strip: sort/limit/group terms are directives, not filters. They vanish from the operator
@@ -1269,26 +1310,30 @@ func (n *vNames) val(v vVal, w *strings.Builder) {
 // ---------------------------------------------------------------- driver
 
 type vResult struct {
-	I      int      `json:"i"`
-	Q      string   `json:"q"`
-	Err    string   `json:"err,omitempty"`   // Parse returned an error
-	DErr   string   `json:"derr,omitempty"`  // the dumper found the text ill-formed
-	Unsup  string   `json:"unsup,omitempty"` // outside the evaluated fragment (reason)
-	Wf     bool     `json:"wf"`              // NOT-inside-sequence fragment with unambiguous meaning
-	Panic  string   `json:"panic,omitempty"`
-	Hang   bool     `json:"hang,omitempty"`
-	Tree   *vExpr   `json:"tree,omitempty"`
-	Norm   string   `json:"norm,omitempty"`
-	NConj  int      `json:"nconj"`
-	Imposs bool     `json:"impossible"`
-	ParseS float64  `json:"parse_s"`
-	Vals   []vVal   `json:"vals,omitempty"`
-	Impl   string   `json:"impl,omitempty"`
-	Impl1c string   `json:"impl1c,omitempty"` // first parse on the coarse-time copy of the valuations
-	Impl2  string   `json:"impl2,omitempty"`  // second Parse of the same text on the coarse-time copy
-	Sem    string   `json:"sem,omitempty"`
-	SemL   string   `json:"seml,omitempty"`
-	Elems  []string `json:"elems,omitempty"`
+	I        int      `json:"i"`
+	Q        string   `json:"q"`
+	Err      string   `json:"err,omitempty"`   // Parse returned an error
+	DErr     string   `json:"derr,omitempty"`  // the dumper found the text ill-formed
+	Unsup    string   `json:"unsup,omitempty"` // outside the evaluated fragment (reason)
+	Wf       bool     `json:"wf"`              // NOT-inside-sequence fragment with unambiguous meaning (spec tree)
+	WfD      bool     `json:"wfd"`             // the same on the dumped tree
+	SemD     string   `json:"semd,omitempty"`  // sem on the dumped tree (what the model sees); sem is on the spec tree
+	SemLD    string   `json:"semld,omitempty"`
+	SpecNote string   `json:"specnote,omitempty"`
+	Panic    string   `json:"panic,omitempty"`
+	Hang     bool     `json:"hang,omitempty"`
+	Tree     *vExpr   `json:"tree,omitempty"`
+	Norm     string   `json:"norm,omitempty"`
+	NConj    int      `json:"nconj"`
+	Imposs   bool     `json:"impossible"`
+	ParseS   float64  `json:"parse_s"`
+	Vals     []vVal   `json:"vals,omitempty"`
+	Impl     string   `json:"impl,omitempty"`
+	Impl1c   string   `json:"impl1c,omitempty"` // first parse on the coarse-time copy of the valuations
+	Impl2    string   `json:"impl2,omitempty"`  // second Parse of the same text on the coarse-time copy
+	Sem      string   `json:"sem,omitempty"`
+	SemL     string   `json:"seml,omitempty"`
+	Elems    []string `json:"elems,omitempty"`
 }
 
 type vParsed struct {
@@ -1329,6 +1374,10 @@ func vBits(bs []bool) string {
 }
 
 func vRunCase(i int, text string, nvals int, seed int64, hang time.Duration, mw *bufio.Writer) (res vResult) {
+	return vRunCaseSpec(i, text, nil, nvals, seed, hang, mw)
+}
+
+func vRunCaseSpec(i int, text string, spec *vExpr, nvals int, seed int64, hang time.Duration, mw *bufio.Writer) (res vResult) {
 	res = vResult{I: i, Q: text}
 	defer func() {
 		if x := recover(); x != nil {
@@ -1375,7 +1424,12 @@ func vRunCase(i int, text string, nvals int, seed int64, hang time.Duration, mw 
 	if pr.err != nil {
 		return
 	}
-	d.rank(tree)
+	nOwn := len(d.elems)
+	d.completeSpec(spec)
+	if spec != nil && len(d.elems) != nOwn {
+		res.SpecNote = "the text as written names a payload element that the parsed tree does not contain"
+	}
+	d.rank(tree, spec)
 	res.Tree = tree
 	for _, e := range d.elems {
 		res.Elems = append(res.Elems, fmt.Sprintf("%s|%d|%q|%s", e.Sub, e.Flags, e.Regex, e.Conv))
@@ -1398,10 +1452,19 @@ func vRunCase(i int, text string, nvals int, seed int64, hang time.Duration, mw 
 		panic("normal form contains a data element that is not in the query: " + e.Regex)
 	}
 	stripped := vStrip(tree)
+	// the oracle works on the spec tree when there is one (the dumped tree is what the model gets)
+	oracle := stripped
+	if spec != nil {
+		oracle = vStrip(spec)
+	}
 	vExpandCache = map[*vExpr][]*vExpr{}
-	res.Wf = stripped == nil || vWf(stripped, true)
+	res.Wf = oracle == nil || vWf(oracle, true)
+	res.WfD = stripped == nil || vWf(stripped, true)
 	crit := &vCrit{subs: []string{""}}
-	crit.collect(stripped)
+	crit.collect(oracle)
+	if spec != nil {
+		crit.collect(stripped)
+	}
 	rng := rand.New(rand.NewSource(seed*1000003 + int64(i)))
 	seqs := crit.eventSeqs(rng, nvals)
 	n := nvals
@@ -1418,7 +1481,7 @@ func vRunCase(i int, text string, nvals int, seed int64, hang time.Duration, mw 
 	if res.ParseS < twiceMax {
 		pr2, ok2 = vParseGuard(text, hang)
 	}
-	impl, impl1c, impl2, sem, semL := []bool{}, []bool{}, []bool{}, []bool{}, []bool{}
+	impl, impl1c, impl2, sem, semL, semD, semLD := []bool{}, []bool{}, []bool{}, []bool{}, []bool{}, []bool{}, []bool{}
 	names := &vNames{subs: vRankNames(crit.subs), tags: vRankNames(crit.tags)}
 	var mb strings.Builder
 	fmt.Fprintf(&mb, "C %d ", i)
@@ -1449,13 +1512,22 @@ func vRunCase(i int, text string, nvals int, seed int64, hang time.Duration, mw 
 			impl1c = append(impl1c, vEvalSet(q.Conditions, vc, elemID))
 			impl2 = append(impl2, vEvalSet(pr2.q.Conditions, vc, elemID))
 		}
-		sem = append(sem, vSem(stripped, v))
-		semL = append(semL, vSemL(stripped, v))
+		sem = append(sem, vSem(oracle, v))
+		semL = append(semL, vSemL(oracle, v))
+		if spec != nil {
+			semD = append(semD, vSem(stripped, v))
+			semLD = append(semLD, vSemL(stripped, v))
+		}
 		names.val(v, &mb)
 		mb.WriteString("\n")
 	}
 	mb.WriteString("E\n")
 	res.Impl, res.Impl1c, res.Impl2, res.Sem, res.SemL = vBits(impl), vBits(impl1c), vBits(impl2), vBits(sem), vBits(semL)
+	if spec != nil {
+		res.SemD, res.SemLD = vBits(semD), vBits(semLD)
+	} else {
+		res.SemD, res.SemLD = res.Sem, res.SemL
+	}
 	if mw != nil {
 		mw.WriteString(mb.String())
 		mw.Flush()
@@ -1517,10 +1589,18 @@ func TestVerifC03(t *testing.T) {
 			continue
 		}
 		var text string
+		var spec *vExpr
 		if err := json.Unmarshal(sc.Bytes(), &text); err != nil {
-			t.Fatalf("case %d: %v", i, err)
+			var obj struct {
+				Q    string `json:"q"`
+				Spec *vExpr `json:"spec"`
+			}
+			if err2 := json.Unmarshal(sc.Bytes(), &obj); err2 != nil {
+				t.Fatalf("case %d: %v", i, err2)
+			}
+			text, spec = obj.Q, obj.Spec
 		}
-		res := vRunCase(i, text, nvals, seed, hang, mw)
+		res := vRunCaseSpec(i, text, spec, nvals, seed, hang, mw)
 		if novals {
 			res.Vals = nil
 		}
